@@ -84,6 +84,16 @@ def run(case):
         for q in case.get("qs", []):
             tq = q / (4 * tb.scale)          # exact: power-of-two denominators
             outq.append([segs_of(tb, t.overlapping(tq)), segs_of(tb, t.overlapping_iter(tq))])
+        if tb.prec is None and case["ts"]:
+            # membership of a time point in the stored segments does not depend on the precision in force: the same
+            # queries under a coarser precision set AFTER the timeline was built (stored bounds are not re-rounded)
+            from pyannote.core import Segment
+            try:
+                Segment.set_precision(1 if len(case["segs"]) % 2 else 0)
+                again = [[segs_of(tb, t.overlapping(tb.t(x))), segs_of(tb, t.overlapping_iter(tb.t(x)))] for x in case["ts"][:40]]
+            finally:
+                Segment.set_precision(None)
+            assert again == out[:40], "overlapping(t) changed when the time precision was changed after the timeline was built"
         return {"q": out, "qq": outq}
     finally:
         tb.leave()
